@@ -449,6 +449,9 @@ func TestVerifReplay(t *testing.T) {
 	cmd.Env = append(os.Environ(), "VERIF_REPLAY="+replayPath, "GOFLAGS=-mod=mod", "GOPROXY=off", "GOSUMDB=off")
 	out, err := cmd.CombinedOutput()
 	s := string(out)
+	if os.Getenv("GOSMX_NATIVE_OUT") != "" {
+		fmt.Println(s)
+	}
 	if err == nil {
 		return false, "native test passed"
 	}
